@@ -600,7 +600,7 @@ class Translator(object):
             out.append(pyast.For(target=name(lv + '__data', pyast.Store()), iter=self.expr(start), body=b, orelse=[]))
             return
         # counted loop: for (i = a; i < b; i++)
-        if lv and sc and sc.get('kind') == 'BinaryOperator' and sc.get('opcode') in ('<', '<=') and sinc and \
+        if lv and sc and sinc and (sc.get('kind') != 'BinaryOperator' or sc.get('opcode') in ('<', '<=', '!=', '&&')) and \
                 ((sinc.get('kind') == 'UnaryOperator' and sinc.get('opcode') in ('++',)) or
                  (sinc.get('kind') == 'CompoundAssignOperator' and sinc.get('opcode') == '+=')):
             pre = []
